@@ -8,20 +8,22 @@ use std::process::{Command, Stdio};
 use std::time::{Duration, Instant};
 
 pub const ORDERS: [&str; 5] = ["ascending", "descending", "zigzag", "organpipe", "random"];
-pub const ACTIONS: [&str; 9] = ["drop", "clear", "iter-forward", "iter-backward", "iter-partial-drop", "lookups", "remove-ascending", "remove-descending", "iter-alternating"];
+pub const ACTIONS: [&str; 12] = ["drop", "clear", "iter-forward", "iter-backward", "iter-partial-drop", "lookups", "remove-ascending", "remove-descending", "iter-alternating", "iter-untouched-drop", "iter-front-drop", "iter-back-drop"];
+/// lookups done after building and before the action: they fold the chain (a splay brings the key to the root)
+pub const FOLDS: [&str; 5] = ["none", "get-max", "get-min", "get-mid", "next-of-min"];
 pub const SHAPES: [&str; 3] = ["comb", "grid", "nested"];
 pub const CORNERS: [&str; 4] = ["top-left", "bottom-left", "top-right", "bottom-right"];
 
 #[derive(Clone, Debug, PartialEq)]
 pub enum Scenario {
-    Splay { order: usize, size: u64, action: usize, stack_mib: u64, salt: u64 },
+    Splay { order: usize, size: u64, action: usize, stack_mib: u64, salt: u64, fold: usize },
     Bool { shape: usize, n: u64, corner: usize, op: usize, stack_mib: u64 },
 }
 
 impl Scenario {
     pub fn args(&self) -> Vec<String> {
         match self {
-            Scenario::Splay { order, size, action, stack_mib, salt } => vec!["splay".into(), ORDERS[*order].into(), size.to_string(), ACTIONS[*action].into(), stack_mib.to_string(), salt.to_string()],
+            Scenario::Splay { order, size, action, stack_mib, salt, fold } => vec!["splay".into(), ORDERS[*order].into(), size.to_string(), ACTIONS[*action].into(), stack_mib.to_string(), salt.to_string(), FOLDS[*fold].into()],
             Scenario::Bool { shape, n, corner, op, stack_mib } => vec!["bool".into(), SHAPES[*shape].into(), n.to_string(), CORNERS[*corner].into(), crate::exec::op_name(crate::exec::OPS[*op]).into(), stack_mib.to_string()],
         }
     }
@@ -36,6 +38,7 @@ impl Scenario {
                 action: ACTIONS.iter().position(|o| Some(*o) == a.get(3).map(|s| s.as_str()))?,
                 stack_mib: a.get(4)?.parse().ok()?,
                 salt: a.get(5).and_then(|s| s.parse().ok()).unwrap_or(0),
+                fold: a.get(6).and_then(|f| FOLDS.iter().position(|o| *o == f.as_str())).unwrap_or(0),
             }),
             "bool" => Some(Scenario::Bool {
                 shape: SHAPES.iter().position(|o| Some(*o) == a.get(1).map(|s| s.as_str()))?,
@@ -147,7 +150,7 @@ pub fn child_main(args: &[String]) -> i32 {
 
 fn run_scenario(sc: &Scenario) -> String {
     match sc {
-        Scenario::Splay { order, size, action, salt, .. } => {
+        Scenario::Splay { order, size, action, salt, fold, .. } => {
             let keys = insertion_order(*order, *size, *salt);
             let mut t = SplayTree::new(|a: &u32, b: &u32| a.cmp(b));
             for &k in &keys {
@@ -156,6 +159,16 @@ fn run_scenario(sc: &Scenario) -> String {
             drop(keys);
             let height = t.verif_height();
             let n = t.len() as u64;
+            if n > 0 {
+                let top = (n - 1) as u32;
+                match FOLDS[*fold] {
+                    "get-max" => assert!(t.get(&top).is_some()),
+                    "get-min" => assert!(t.get(&0).is_some()),
+                    "get-mid" => assert!(t.get(&(top / 2)).is_some()),
+                    "next-of-min" => assert!(n < 2 || t.next(&0).map(|x| *x.0) == Some(1)),
+                    _ => {}
+                }
+            }
             let mut checksum: u64 = 0;
             let mut count: u64 = 0;
             match ACTIONS[*action] {
@@ -203,6 +216,31 @@ fn run_scenario(sc: &Scenario) -> String {
                     if let Some((k, _)) = it.next_back() {
                         checksum += k as u64;
                         count += 1;
+                    }
+                    drop(it);
+                }
+                "iter-untouched-drop" => {
+                    let it = t.into_iter();
+                    count = it.len() as u64;
+                    drop(it);
+                }
+                "iter-front-drop" => {
+                    let mut it = t.into_iter();
+                    for _ in 0..1000 {
+                        if let Some((k, _)) = it.next() {
+                            checksum += k as u64;
+                            count += 1;
+                        }
+                    }
+                    drop(it);
+                }
+                "iter-back-drop" => {
+                    let mut it = t.into_iter();
+                    for _ in 0..1000 {
+                        if let Some((k, _)) = it.next_back() {
+                            checksum += k as u64;
+                            count += 1;
+                        }
                     }
                     drop(it);
                 }
